@@ -138,7 +138,7 @@ func c36BuildSegment(t *rapid.T, s3 *c36S3, d *c36Data, topic string, part int32
 			default:
 				r.Key = []byte(fmt.Sprintf("k%d", rapid.IntRange(0, 5).Draw(t, "key")))
 			}
-			switch rapid.IntRange(0, 4).Draw(t, "valkind") {
+			switch rapid.IntRange(0, 6).Draw(t, "valkind") {
 			case 0:
 				r.Value = nil
 			case 1:
@@ -810,7 +810,7 @@ func c36VariantOfSome(t *rapid.T, prev []c36Query) (c36Query, bool) {
 			cands = append(cands, p)
 		}
 	}
-	if len(cands) == 0 || rapid.IntRange(0, 2).Draw(t, "variant") != 0 {
+	if len(cands) == 0 || rapid.IntRange(0, 1).Draw(t, "variant") != 0 {
 		return c36Query{}, false
 	}
 	return c36Variant(t, rapid.SampledFrom(cands).Draw(t, "varof"))
@@ -1074,6 +1074,7 @@ func TestVF_C36_Select(t *testing.T) {
 		}
 
 		var prev []c36Query
+		var cachedJSON []c36Query // answered, cacheable queries with JSON columns on a cache-enabled server (weighted as variant sources)
 		var seen [][2]string // (text folded outside quotes, aliases as written) of every query sent to this server
 		nq := rapid.IntRange(3, 8).Draw(t, "nqueries")
 		for qi := 0; qi < nq; qi++ {
@@ -1100,7 +1101,7 @@ func TestVF_C36_Select(t *testing.T) {
 			if len(prev) > 0 && rapid.IntRange(0, 4).Draw(t, "repeat") == 0 {
 				q = rapid.SampledFrom(prev).Draw(t, "again")
 				st.Class("repeat-query")
-			} else if v, ok := c36VariantOfSome(t, prev); ok {
+			} else if v, ok := c36VariantOfSome(t, append(append([]c36Query(nil), prev...), cachedJSON...)); ok {
 				q = v // differs from an earlier query only in letter case / white space inside a JSON path or alias
 				st.Class("case-variant-query")
 			} else {
@@ -1171,6 +1172,9 @@ func TestVF_C36_Select(t *testing.T) {
 				st.Class("stat:parser-reads-text-differently")
 			}
 			st.Class("answered")
+			if resultCache && cacheable && c36CaseKey(q) != "" && len(resp.rows) > 0 {
+				cachedJSON = append(cachedJSON, q, q, q)
+			}
 			if q.Shape == "" {
 				st.Class("f:plain")
 			}
